@@ -25,7 +25,7 @@ RULE = ("Histories over an alphabet of ~60 configuration operations, each a real
         "callables), settings.base_schema.*; deserializer / serializer registration and reset_deserializers / reset_serializer; "
         "set_object_fields(cls, fields | None); type_name; schema(...)(tp); class alias(aliaser); class order; validator(owner=); "
         "dependent_required(owner=); serialized(owner=); discriminator; apischema.cache.set_size (it changes no result by itself, but every "
-        "later operation has to invalidate the resized caches too: each operation is also run right after one set_size).  After EVERY operation 22 observations (deserialize valid / "
+        "later operation has to invalidate the resized caches too: each operation is also run right after one set_size).  After EVERY operation ~40 observations (deserialize valid / "
         "invalid data, serialize, both schemas, on objects, NewType, converted wrapper, Union[A, B] and Union[B, A], enum) are taken warm "
         "and compared (a) with the same observations taken after apischema.cache.reset() in a fork()ed copy of the warm process (so that "
         "the comparison never repairs the history under test) and, at the end of the history, (b) with a replay of the configuration "
@@ -41,7 +41,7 @@ SHARDS = {"quick": 8, "thorough": 16}
 MIN_NONTRIVIAL = {"quick": 60, "thorough": 2000}
 TECHNIQUE = "model-based history testing: bounded-exhaustive op pairs + Hypothesis op sequences; oracle = warm vs cache.reset() in a fork vs forked pristine interpreter replay"
 LEVEL_TEXT = ("Exploration with an exhaustively enumerated core (every single operation in quick, every ordered pair in thorough) plus random histories; "
-              "after every operation 22 observations are compared warm / reset-in-fork / pristine-replay.")
+              "after every operation ~40 observations are compared warm / reset-in-fork / pristine-replay.")
 LEVEL_NOTE = "Trusted: the pool program and op table below; os.fork-based cold starts; settings snapshot/restore between histories."
 
 POOL = r'''
@@ -103,6 +103,10 @@ class Sub1(Base):
 @dataclass
 class Sub2(Base):
     y: int = 0
+
+@dataclass
+class HD:  # the discriminated union below a class: the compiled method is cached with the one of HD
+    u: Annotated[Union[Sub1, Sub2], discriminator("type")]
 
 @dataclass
 class Leaf:
@@ -247,6 +251,9 @@ OBS = {
     "de_disc_union": lambda: deserialize(Annotated[Union[Sub1, Sub2], discriminator("type")], {"type": "Sub1", "x": 1}),
     "de_disc_union_s1": lambda: deserialize(Annotated[Union[Sub1, Sub2], discriminator("type")], {"type": "S1", "x": 1}),
     "ser_disc_union": lambda: serialize(Annotated[Union[Sub1, Sub2], discriminator("type")], Sub1(0, 1)),
+    "de_hd": lambda: deserialize(HD, {"u": {"type": "Sub1", "x": 1}}),
+    "de_hd_upper": lambda: deserialize(HD, {"u": {"type": "SUB2", "y": 1}}),
+    "ser_hd": lambda: serialize(HD, HD(Sub2(0, 1))),
     "ser_tree": lambda: serialize(Tree, Tree([Leaf(1), Leaf(2)])),
     "de_tree": lambda: deserialize(Tree, {"leaves": [{"leaves": []}, {"leaves": [{"leaves": []}]}]}),
     "de_tree_flat": lambda: deserialize(Tree, {"leaves": [{"x": 1}]}),
